@@ -47,19 +47,26 @@ func (l *IDNNotNFC) CheckApplies(c *x509.Certificate) bool {
 }
 
 func (l *IDNNotNFC) Execute(c *x509.Certificate) *lint.LintResult {
+	// Names are judged as a set: a label that cannot be converted only makes the
+	// result NA when no other label has a finding, wherever it sits in the list.
+	unconvertible := false
 	for _, dns := range c.DNSNames {
 		labels := strings.Split(dns, ".")
 		for _, label := range labels {
 			if util.HasXNLabelPrefix(label) {
 				unicodeLabel, err := util.IdnaToUnicode(label)
 				if err != nil {
-					return &lint.LintResult{Status: lint.NA}
+					unconvertible = true
+					continue
 				}
 				if !norm.NFC.IsNormalString(unicodeLabel) {
 					return &lint.LintResult{Status: lint.Error}
 				}
 			}
 		}
+	}
+	if unconvertible {
+		return &lint.LintResult{Status: lint.NA}
 	}
 	return &lint.LintResult{Status: lint.Pass}
 }
